@@ -168,10 +168,18 @@ def run_direct(case, res):
             tol, mi = 1e-10, 100
             st["direct_calls_with_default_tolerance"] = st.get("direct_calls_with_default_tolerance", 0) + 1
         ncalls = [0]
+        inplace = bool(k % 7 == 3)
+        if inplace:
+            # exact projectors that overwrite the vector they are handed and return it (np.clip(w, l, u, out=w) is the everyday
+            # example): the routine owns every vector it passes to a projector, so this must not change anything
+            st["direct_calls_with_inplace_projectors"] = st.get("direct_calls_with_inplace_projectors", 0) + 1
 
         def wrap(q):
             def w(v):
                 ncalls[0] += 1
+                if inplace:
+                    v[...] = q(v.copy())
+                    return v
                 return q(v)
             return w
         try:
